@@ -236,58 +236,72 @@ theorem dfs_inner (fuel : Nat) :
           · cases h
           · exact hassign _ _ _ h
 
-/-- every table `from_frequencies` returns has 513 entries and well-formed inner nodes -/
-theorem fromFrequencies_inner (f : List Nat) (t : Table) (h : fromFrequencies f = .ok t) :
-    t.size = NUM_NODES ∧ ChildLt t := by
+/-- the table after the merge loop -/
+theorem forest_of_idx (fs0 : List Freq) (hidx : fs0.map (·.nodeIdx) = List.range' 0 256) :
+    (buildTree (fs0 ++ [(⟨1, EOF⟩ : Freq)]).length (fs0 ++ [⟨1, EOF⟩])
+        (Array.replicate NUM_SYMBOLS (65535, 65535))).size = 513
+      ∧ InnerBelow (buildTree (fs0 ++ [(⟨1, EOF⟩ : Freq)]).length (fs0 ++ [⟨1, EOF⟩])
+        (Array.replicate NUM_SYMBOLS (65535, 65535)))
+      ∧ Covered (buildTree (fs0 ++ [(⟨1, EOF⟩ : Freq)]).length (fs0 ++ [⟨1, EOF⟩])
+        (Array.replicate NUM_SYMBOLS (65535, 65535))) := by
+  have hlen0 : fs0.length = 256 := by
+    have := congrArg List.length hidx
+    simpa using this
+  have hinit : BInv (fs0 ++ [(⟨1, EOF⟩ : Freq)]) (Array.replicate NUM_SYMBOLS (65535, 65535)) := by
+    constructor
+    · simp [NUM_SYMBOLS]
+    · intro x hx
+      simp only [List.mem_append, List.mem_singleton] at hx
+      simp only [Array.size_replicate, NUM_SYMBOLS]
+      rcases hx with hx | rfl
+      · have : x.nodeIdx ∈ List.range' 0 256 := by
+          rw [← hidx]; exact List.mem_map_of_mem hx
+        simp only [List.mem_range'_1] at this
+        omega
+      · decide
+    · rw [List.map_append, hidx, List.nodup_append]
+      refine ⟨List.nodup_range' 1, by simp, ?_⟩
+      intro a ha b hb
+      simp only [List.mem_range'_1] at ha
+      simp only [List.map_cons, List.map_nil, List.mem_singleton, EOF] at hb
+      omega
+    · intro i hi1 hi2
+      simp only [Array.size_replicate] at hi2
+      omega
+    · simp [hlen0, NUM_SYMBOLS]
+    · simp
+    · intro j hj
+      simp only [Array.size_replicate, NUM_SYMBOLS] at hj
+      left
+      by_cases hj6 : j = 256
+      · exact ⟨⟨1, EOF⟩, by simp, by simp [EOF, hj6]⟩
+      · have : j ∈ List.range' 0 256 := by simp only [List.mem_range'_1]; omega
+        rw [← hidx] at this
+        simp only [List.mem_map] at this
+        obtain ⟨x, hx, e⟩ := this
+        exact ⟨x, by simp only [List.mem_append]; left; exact hx, e⟩
+  exact buildTree_inv _ _ _ hinit (Nat.le_succ _)
+
+/-- unfolding of `fromFrequencies`: the forest `T` and the traversal on it -/
+theorem fromFrequencies_ok (f : List Nat) (t : Table) (h : fromFrequencies f = .ok t) :
+    ∃ T : Table, T.size = 513 ∧ InnerBelow T ∧ Covered T ∧ dfs T 4096 [] 0 true = .ok t
+      ∧ t.size = NUM_NODES := by
   simp only [fromFrequencies] at h
   split at h
   · cases h
   · next hlen =>
     have hlen' : f.length = 256 := by omega
-    -- the initial forest
-    have hinit : BInv ((f.zipIdx.map fun ((x, i) : Nat × Nat) => (⟨x, i⟩ : Freq)) ++ [⟨1, EOF⟩])
-        (Array.replicate NUM_SYMBOLS (65535, 65535)) := by
-      have hidx : (f.zipIdx.map fun ((x, i) : Nat × Nat) => (⟨x, i⟩ : Freq)).map (·.nodeIdx)
-          = List.range' 0 256 := by
-        rw [List.map_map, ← hlen', ← List.zipIdx_map_snd 0 f]
-        rfl
-      constructor
-      · simp [NUM_SYMBOLS]
-      · intro x hx
-        simp only [List.mem_append, List.mem_singleton] at hx
-        simp only [Array.size_replicate, NUM_SYMBOLS]
-        rcases hx with hx | rfl
-        · have : x.nodeIdx ∈ List.range' 0 256 := by
-            rw [← hidx]; exact List.mem_map_of_mem hx
-          simp only [List.mem_range'_1] at this
-          omega
-        · decide
-      · rw [List.map_append, hidx, List.nodup_append]
-        refine ⟨List.nodup_range' 1, by simp, ?_⟩
-        intro a ha b hb
-        simp only [List.mem_range'_1] at ha
-        simp only [List.map_cons, List.map_nil, List.mem_singleton, EOF] at hb
-        omega
-      · intro i hi1 hi2
-        simp only [Array.size_replicate] at hi2
-        omega
-      · simp [hlen', NUM_SYMBOLS]
-      · simp
-      · intro j hj
-        simp only [Array.size_replicate, NUM_SYMBOLS] at hj
-        left
-        by_cases hj6 : j = 256
-        · exact ⟨⟨1, EOF⟩, by simp, by simp [EOF, hj6]⟩
-        · have : j ∈ List.range' 0 256 := by simp only [List.mem_range'_1]; omega
-          rw [← hidx] at this
-          simp only [List.mem_map] at this
-          obtain ⟨x, hx, e⟩ := this
-          exact ⟨x, by simp only [List.mem_append]; left; exact List.mem_map.mpr hx, e⟩
-    have hb := buildTree_inv _ _ _ hinit (Nat.le_succ _)
+    revert h
+    generalize hfs0 : List.map _ f.zipIdx = fs0
+    intro h
+    have hidx : fs0.map (·.nodeIdx) = List.range' 0 256 := by
+      rw [← hfs0, List.map_map, ← hlen', ← List.zipIdx_map_snd 0 f]
+      rfl
+    have hb := forest_of_idx fs0 hidx
     revert h
     generalize buildTree _ _ (Array.replicate NUM_SYMBOLS (65535, 65535)) = T at hb
     intro h
-    obtain ⟨hT1, hT2, _hT3⟩ := hb
+    refine ⟨T, hb.1, hb.2.1, hb.2.2, ?_⟩
     cases hd : dfs T 4096 [] 0 true with
     | panic s => rw [hd] at h; cases h
     | diverge => rw [hd] at h; cases h
@@ -295,16 +309,20 @@ theorem fromFrequencies_inner (f : List Nat) (t : Table) (h : fromFrequencies f 
       rw [hd] at h
       simp only at h
       split at h
-      · next hsz =>
-        cases h
-        obtain ⟨d1, d2⟩ := dfs_inner _ _ _ _ _ _ hd
-        refine ⟨hsz, ?_⟩
-        intro i hi1 hi2 b
-        have := hT2 i hi1 (by rw [hT1]; exact hi2)
-        rw [← d2 i hi1] at this
-        cases b
-        · simp only [child, childF]; exact this.1
-        · simp only [child, childF]; exact this.2.1
+      · next hsz => cases h; exact ⟨rfl, hsz⟩
       · cases h
+
+/-- every table `from_frequencies` returns has 513 entries and well-formed inner nodes -/
+theorem fromFrequencies_inner (f : List Nat) (t : Table) (h : fromFrequencies f = .ok t) :
+    t.size = NUM_NODES ∧ ChildLt t := by
+  obtain ⟨T, hT1, hT2, _, hd, hsz⟩ := fromFrequencies_ok f t h
+  obtain ⟨_, d2⟩ := dfs_inner _ _ _ _ _ _ hd
+  refine ⟨hsz, ?_⟩
+  intro i hi1 hi2 b
+  have := hT2 i hi1 (by rw [hT1]; exact hi2)
+  rw [← d2 i hi1] at this
+  cases b
+  · simp only [child, childF]; exact this.1
+  · simp only [child, childF]; exact this.2.1
 
 end Tw.Huffman
